@@ -22,6 +22,7 @@ if ! (cd $S/repo && patch -p1 -s --no-backup-if-mismatch < $DST/patch.diff >/dev
 for p in $(./bin/rsyncverif -prop list); do
   ( mkdir -p $S/v-$p/evidence; cp known_findings.json $S/v-$p/; out=$(./bin/rsyncverif -repo $S/repo -verif $S/v-$p -prop $p -tier quick 2>&1); rc=$?
     if [ $rc -ne 0 ]; then echo "== $p rc=$rc"; echo "$out" | grep -E '^(VIOLATED|UNDECIDED|CHECK-FAILURE)' | cut -c1-400; fi > $S/res-$p ) &
+  while [ $(jobs -rp | wc -l) -ge ${RV_JOBS:-6} ]; do wait -n; done
 done; wait
 cat $S/res-* 2>/dev/null; own=$(cat $S/res-$ID 2>/dev/null | head -1)
 [ -n "$own" ] && echo "OWN-PROPERTY: detected" || echo "OWN-PROPERTY: MISSED"
